@@ -30,6 +30,7 @@ var tokenizerFuncs = map[string]bool{
 func runC16(c *engine.Ctx, tier string) {
 	oneTokenizer(c)
 	escapeAgreement(c)
+	escaperShape(c)
 	splitterAutomaton(c)
 	sortedKeys(c)
 	o := c.Custom("C16.4", "api-uniformity", "GetParentPath computes the parent through utils.SplitPath", "the parent of a path is that path without its last element, brackets respected")
@@ -59,13 +60,39 @@ func isSlashConst(info *types.Info, e ast.Expr) bool {
 	return s == `"/"` || s == "47"
 }
 
-func oneTokenizer(c *engine.Ctx) {
-	o := c.Custom("C16.1", "api-uniformity", "no raw strings.Split/SplitN/Index/LastIndex/IndexByte/LastIndexByte/Trim… with separator '/' on a path-typed string outside the tokenizer functions",
+// startsWithSlashConst: the separator searched for is "/" or "/" + something.
+func startsWithSlashConst(info *types.Info, e ast.Expr) bool {
+	e = ast.Unparen(e)
+	if isSlashConst(info, e) {
+		return true
+	}
+	if b, ok := e.(*ast.BinaryExpr); ok && b.Op == token.ADD {
+		return startsWithSlashConst(info, b.X)
+	}
+	return false
+}
+
+func oneTokenizer(c *engine.Ctx) { oneTokenizerIn(c, "C16.1", nil, 1) }
+
+// oneTokenizerIn restricts the rule to the given packages (nil = the whole module).
+func oneTokenizerIn(c *engine.Ctx, id string, pkgs []string, min int) {
+	o := c.Custom(id, "api-uniformity", "no raw strings.Split/SplitN/Index/LastIndex/IndexByte/LastIndexByte/Trim… with separator '/' on a path-typed string outside the tokenizer functions",
 		"a key value may contain '/': only the bracket- and escape-aware tokenizer cuts a textual path at element boundaries")
-	defer o.Done(1)
+	defer o.Done(min)
+	inScope := func(rel string) bool {
+		if pkgs == nil {
+			return true
+		}
+		for _, p := range pkgs {
+			if p == rel {
+				return true
+			}
+		}
+		return false
+	}
 	raw := map[string]bool{"strings.Split": true, "strings.SplitN": true, "strings.Index": true, "strings.LastIndex": true, "strings.IndexByte": true, "strings.LastIndexByte": true, "strings.SplitAfter": true, "strings.Cut": true}
 	for _, cs := range c.P.CallSites() {
-		if strings.HasPrefix(cs.Pkg, "internal/") || strings.HasPrefix(cs.Pkg, "cmd/") {
+		if strings.HasPrefix(cs.Pkg, "internal/") || strings.HasPrefix(cs.Pkg, "cmd/") || !inScope(cs.Pkg) {
 			continue
 		}
 		if cs.Callee == "utils.SplitPath" {
@@ -73,14 +100,18 @@ func oneTokenizer(c *engine.Ctx) {
 			o.Eval(1)
 			continue
 		}
-		if !raw[cs.Callee] || len(cs.Call.Args) < 2 || !isSlashConst(cs.Info, cs.Call.Args[1]) {
+		if !raw[cs.Callee] || len(cs.Call.Args) < 2 || !startsWithSlashConst(cs.Info, cs.Call.Args[1]) {
 			continue
 		}
-		// the string being cut: unwrap Trim/TrimPrefix etc.
+		// the string being cut: unwrap Trim/TrimPrefix etc. and slices of the string
 		arg := ast.Unparen(cs.Call.Args[0])
 		for {
 			if call, ok := arg.(*ast.CallExpr); ok && len(call.Args) >= 1 && strings.HasPrefix(types.ExprString(call.Fun), "strings.Trim") {
 				arg = ast.Unparen(call.Args[0])
+				continue
+			}
+			if sl, ok := arg.(*ast.SliceExpr); ok {
+				arg = ast.Unparen(sl.X)
 				continue
 			}
 			break
@@ -387,4 +418,80 @@ func splitterAutomaton(c *engine.Ctx) {
 		}
 	}
 	o.Site("nextTokenIndex: transition table evaluated for '[', ']', '\\', '/', other")
+}
+
+// escaperShape: C16.6. Every rune of the text goes through the escaping decision.
+func escaperShape(c *engine.Ctx) {
+	o := c.Custom("C16.6", "K-facts(escaper)", "writeSafeString writes into the builder only inside its loop over the runes of s: WriteRune('\\\\') exactly when the rune is the escape character or a backslash, then WriteRune(the rune); nothing of s is written by any other call",
+		"a fast path that copies the text without looking at every rune skips the backslash rule: a key value with a backslash no longer survives the round trip")
+	defer o.Done(3)
+	ps, err := c.A.PathsOpt(pkgUtils, engine.PathOpts{Roots: []string{"utils.writeSafeString"}, Exact: true, NoInline: true})
+	if err != nil || len(ps) == 0 {
+		o.Undecided(pkgUtils, fmt.Sprintf("no paths for writeSafeString: %v", err))
+		return
+	}
+	reported := map[string]bool{}
+	fail := func(p *engine.Path, pos token.Pos, msg string) {
+		if !reported[msg] {
+			reported[msg] = true
+			o.Fail(&engine.Violation{Key: "utils.writeSafeString|" + msg, Pos: c.P.Pos(pos), Func: "utils.writeSafeString", Msg: msg})
+		}
+	}
+	for _, p := range ps {
+		o.Eval(1)
+		inLoop := false
+		escCond, sawCond := false, false
+		wroteEsc, wroteRune := false, false
+		for i := range p.Events {
+			e := &p.Events[i]
+			switch e.Kind {
+			case engine.EvLoopEnter:
+				if e.Range == "$s" {
+					inLoop = true
+				}
+			case engine.EvLoopExit:
+				if inLoop {
+					// one iteration is complete: check it
+					if sawCond {
+						if escCond != wroteEsc {
+							fail(p, e.Pos, "the escape backslash is written exactly when the rune is neither the escape character nor a backslash (or is missing when it is)")
+						}
+						if !wroteRune {
+							fail(p, e.Pos, "an iteration does not write the rune itself")
+						}
+					}
+					inLoop = false
+				}
+			case engine.EvCond:
+				if inLoop {
+					l := e.Lit
+					isEsc := (l.L == "$esc" && l.R == "elem($s)") || (l.R == "$esc" && l.L == "elem($s)") || (l.L == "elem($s)" && strings.Contains(l.R, `\\`))
+					if isEsc {
+						sawCond = true
+						if l.Mask == 2 {
+							escCond = true
+						}
+					}
+				}
+			case engine.EvCall:
+				if !strings.HasPrefix(e.CalleeName, "strings.Builder.") || e.Recv != "$Builder" {
+					if len(e.Args) > 0 && e.Args[0] == "$s" && strings.Contains(e.CalleeName, "Write") {
+						fail(p, e.Pos, "the text is written as a whole ("+e.CalleeName+"), bypassing the per-rune escaping")
+					}
+					continue
+				}
+				o.Site(c.P.Pos(e.Pos) + " " + e.CalleeName + "(" + strings.Join(e.Args, ",") + ")")
+				switch {
+				case !inLoop:
+					fail(p, e.Pos, "the builder is written outside the loop over the runes of s ("+e.CalleeName+"("+strings.Join(e.Args, ",")+")): that text bypasses the escaping decision")
+				case e.CalleeName == "strings.Builder.WriteRune" && len(e.Args) == 1 && strings.Contains(e.Args[0], `\\`):
+					wroteEsc = true
+				case e.CalleeName == "strings.Builder.WriteRune" && len(e.Args) == 1 && e.Args[0] == "elem($s)":
+					wroteRune = true
+				default:
+					fail(p, e.Pos, "unexpected write "+e.CalleeName+"("+strings.Join(e.Args, ",")+") in the escaper")
+				}
+			}
+		}
+	}
 }
